@@ -23,7 +23,7 @@ RULE = (
     "with >= 2 fields; distinct = distinct (hierarchy source, order, first accessor)"
 )
 ASSUMPTIONS = ["dataclass field merge order computed from the spec is cross-checked against dataclasses.fields on every class"]
-MUST_SEE = ["init_false_and_compare_false", "subclass_first", "base_first", "falsy_children", "empty_tuples", "overrides", "positional_calls", "multiple_inheritance", "accessor_calls"]
+MUST_SEE = ["equal_twin_with_reused_id", "explicit_hash_flag", "init_false_and_compare_false", "subclass_first", "base_first", "falsy_children", "empty_tuples", "overrides", "positional_calls", "multiple_inheritance", "accessor_calls"]
 CONFIG = {
     "quick": {"shards": 16, "hierarchies": 14, "watchdog_s": 300},
     "thorough": {"shards": 32, "hierarchies": 150, "watchdog_s": 3000},
@@ -99,6 +99,8 @@ def gen_hierarchy(rng, P):
         init = rng.random() > 0.2
         compare = rng.random() > 0.25
         kw_only = rng.random() < 0.2
+        hash_ = rng.choice([True, False]) if rng.random() < 0.25 else None  # field(hash=...) is no part of "comparable"
+        repr_ = rng.random() > 0.15
         if role == "child":
             if override:
                 cands = [c for c in pool_c if (c[0] == old.shape) or rng.random() < 0.2]
@@ -114,14 +116,14 @@ def gen_hierarchy(rng, P):
                 pass
             if rng.random() < 0.25:
                 ann = repr(ann)  # string annotation mixed with concrete ones (resolved later by the library)
-            f = FS(nm, "child", ann, shape_, types, compare=compare, init=init, kw_only=kw_only, default=default)
+            f = FS(nm, "child", ann, shape_, types, compare=compare, init=init, kw_only=kw_only, default=default, hash_=hash_, repr_=repr_)
         else:
             kind, ann, default = rng.choice(PROP_POOL)
             if kind == "lit" and rng.random() < 0.5:
                 kind, ann, default = "enum", f"{P}Color", f"{P}Color.RED"
             if rng.random() < 0.2 and kind != "enum":
                 ann = repr(ann)
-            f = FS(nm, "prop", ann, kind, (), compare=compare, init=init, kw_only=kw_only, default=default)
+            f = FS(nm, "prop", ann, kind, (), compare=compare, init=init, kw_only=kw_only, default=default, hash_=hash_, repr_=repr_)
         return f
 
     specs = []
@@ -326,6 +328,27 @@ def check_instance(ctx, U, cname, inst, detail, rng, full: bool):
         bad("to_properties_dict", "to_properties_dict differs", got=list(d), exp=expd)
 
 
+def twin_with_reused_id(ctx, U, cname, inst, detail, rng):
+    """History: the accessors were used on `inst`; inst leaves the registry; an equal node with the same id but
+    other child objects is created: every accessor must answer with the twin's own objects."""
+    import dataclasses
+
+    kw = {}
+    for f in U.all_fields(cname):
+        if f.role != "child" or not f.init:
+            continue
+        v = getattr(inst, f.name)
+        kw[f.name] = None if v is None else tuple(c.duplicate() for c in v) if isinstance(v, tuple) else v.duplicate()
+    if not any(v for v in kw.values() if v is not None):
+        return
+    old_id = inst.id
+    inst.detach()
+    twin = dataclasses.replace(inst, **kw)
+    if twin.id == old_id and twin == inst:
+        ctx.count("equal_twin_with_reused_id")
+    check_instance(ctx, U, cname, twin, dict(detail, history="equal twin with the id of a detached node, other child objects"), rng, full=False)
+
+
 def run_shard(ctx):
     sys.setrecursionlimit(20000)
     serial = 0
@@ -361,6 +384,8 @@ def run_shard(ctx):
                 ctx.sample(detail)
             if any(not f.init and not f.compare and f.role == "prop" for s in specs for f in s.fields):
                 ctx.count("init_false_and_compare_false")
+            if any(f.hash_ is not None and f.hash_ != f.compare for s in specs for f in s.fields):
+                ctx.count("explicit_hash_flag")
             if any(len(s.bases) > 1 for s in specs):
                 ctx.count("multiple_inheritance")
             ov = set()
@@ -396,6 +421,7 @@ def run_shard(ctx):
                 for cname in names:
                     inst = make_instance(irng, U, cname)
                     check_instance(ctx, U, cname, inst, detail, irng, full=False)
+                    twin_with_reused_id(ctx, U, cname, inst, detail, irng)
             except AssertionError:
                 raise
             except Exception as e:  # noqa: BLE001
